@@ -406,6 +406,45 @@ fn supported_json(t: &DataType) -> bool {
     !matches!(t, DataType::Interval { .. } | DataType::Bit { .. } | DataType::UserDefined { .. } | DataType::Null)
 }
 
+/// the column type a loader is KNOWN to hand back for a type it does not preserve (None: load fails)
+fn known_type_image(binary: bool, t: &DataType) -> Option<DataType> {
+    if binary {
+        match t {
+            DataType::Time { with_timezone: true } => Some(DataType::Time { with_timezone: false }),
+            DataType::Name => Some(DataType::Varchar { max_length: Some(128) }),
+            t if supported_binary(t) => Some(t.clone()),
+            _ => None,
+        }
+    } else {
+        match t {
+            DataType::Interval { .. } => Some(DataType::Interval { start_field: vibesql_types::IntervalField::Day, end_field: None }),
+            DataType::Bit { .. } => Some(DataType::UserDefined { type_name: "BIT".into() }),
+            DataType::UserDefined { type_name } if type_name.to_uppercase() == "BLOB" => Some(DataType::BinaryLargeObject),
+            t => Some(t.clone()),
+        }
+    }
+}
+
+/// schema listing the reloaded database is expected to show, given the known type images
+fn expected_schema(db: &Database, binary: bool, orig: &Observation) -> Vec<String> {
+    let mut out = Vec::new();
+    let mut names = db.list_tables();
+    names.sort();
+    for name in &names {
+        if let Some(t) = db.get_table(name) {
+            let cols: Vec<String> = t
+                .schema
+                .columns
+                .iter()
+                .map(|c| format!("{} {:?} {}", c.name, known_type_image(binary, &c.data_type).unwrap_or(c.data_type.clone()), c.nullable))
+                .collect();
+            out.push(format!("{}({})", name, cols.join(", ")));
+        }
+    }
+    out.extend(orig.schema.iter().filter(|l| l.starts_with("schemas ") || l.starts_with("roles ")).cloned());
+    out
+}
+
 struct Facts {
     has_index: bool,
     unsupported_bin: bool,
@@ -488,7 +527,7 @@ fn char_bytes_of(s: &str) -> Option<Vec<u8>> {
     inner.split(';').map(|x| x.trim().parse().ok()).collect()
 }
 
-fn classify(fmt: &str, f: &Facts, orig: &Observation, re: Result<&Observation, &str>) -> Option<(&'static str, String)> {
+fn classify(fmt: &str, f: &Facts, orig: &Observation, exp_schema: &[String], re: Result<&Observation, &str>) -> Option<(&'static str, String)> {
     let binary = fmt != "json";
     match re {
         Err(msg) => {
@@ -498,7 +537,7 @@ fn classify(fmt: &str, f: &Facts, orig: &Observation, re: Result<&Observation, &
                 "binary-unsupported-column-type"
             } else if !binary && f.nonfinite && msg.contains("NullConstraintViolation") {
                 "json-nonfinite-float"
-            } else if !binary && f.unsupported_json {
+            } else if !binary && f.unsupported_json && msg.contains("Unsupported JSON value") && (msg.contains("UserDefined") || msg.contains("BinaryLargeObject")) {
                 "json-unsupported-column-type"
             } else {
                 "reload-error"
@@ -569,9 +608,9 @@ fn classify(fmt: &str, f: &Facts, orig: &Observation, re: Result<&Observation, &
                 c
             } else if only_index_queries && binary && f.has_index {
                 "binary-load-empty-index"
-            } else if o.schema != orig.schema && binary && f.unsupported_bin {
+            } else if o.schema != orig.schema && binary && f.unsupported_bin && o.schema == exp_schema {
                 "binary-unsupported-column-type"
-            } else if o.schema != orig.schema && !binary && f.unsupported_json {
+            } else if o.schema != orig.schema && !binary && f.unsupported_json && o.schema == exp_schema {
                 "json-unsupported-column-type"
             } else if o.rows != orig.rows && !binary && f.nonfinite && o.schema == orig.schema {
                 "json-nonfinite-float"
@@ -581,6 +620,42 @@ fn classify(fmt: &str, f: &Facts, orig: &Observation, re: Result<&Observation, &
             Some((cls, format!("{}: {}", fmt, what.chars().take(400).collect::<String>())))
         }
     }
+}
+
+/// observed JSON cell as a Coq `jobs` term
+fn coq_jobs(v: &serde_json::Value) -> Option<String> {
+    match v {
+        serde_json::Value::Null => Some("ONull".into()),
+        serde_json::Value::Bool(b) => Some(format!("(OBool {})", b)),
+        serde_json::Value::Number(n) => {
+            if let Some(i) = n.as_i64() {
+                Some(format!("(OInt {})", zlit(i as i128)))
+            } else if let Some(u) = n.as_u64() {
+                Some(format!("(OInt {})", zlit(u as i128)))
+            } else {
+                Some("OFloat".into())
+            }
+        }
+        serde_json::Value::String(s) => Some(format!("(OStr {})", bytes_lit(s.as_bytes()))),
+        _ => None,
+    }
+}
+
+/// cells of the JSON file as (table, row index, column name) -> value, by walking the document
+fn json_cells(text: &str) -> Vec<(String, usize, String, serde_json::Value)> {
+    let mut out = Vec::new();
+    let Ok(doc) = serde_json::from_str::<serde_json::Value>(text) else { return out };
+    for t in doc["tables"].as_array().cloned().unwrap_or_default() {
+        let name = t["name"].as_str().unwrap_or("").to_string();
+        for (ri, row) in t["rows"].as_array().cloned().unwrap_or_default().iter().enumerate() {
+            if let Some(m) = row.as_object() {
+                for (k, v) in m {
+                    out.push((name.clone(), ri, k.clone(), v.clone()));
+                }
+            }
+        }
+    }
+    out
 }
 
 fn load_guard<F: FnOnce() -> Result<Database, vibesql_storage::StorageError>>(f: F) -> Result<Database, String> {
@@ -682,6 +757,8 @@ fn main() {
 
     // ------------------------------------------------------------------ (B) databases
     let ndb: u64 = if args.thorough { 4000 } else { 600 };
+    let mut json_lines: Vec<String> = Vec::new();
+    let mut json_seen: std::collections::HashSet<String> = Default::default();
     let mut shard_text = String::new();
     let mut in_shard = 0;
     let flush = |text: &mut String, n: &mut usize, shard_no: &mut usize| {
@@ -753,14 +830,33 @@ fn main() {
                         reload_code = 0;
                         reload_obs = coq_db_obs(&d2);
                     }
+                    if fmt == "json" && only.is_none() {
+                        // JSON tie: every cell of the file vs the model's sql_value_to_json, and the reloaded cell
+                        let text = std::fs::read_to_string(path).unwrap_or_default();
+                        for (tname, ri, cname, jv) in json_cells(&text) {
+                            let (Some(t1), Some(t2)) = (db.get_table(&tname), d2.get_table(&tname)) else { continue };
+                            let Some(ci) = t1.schema.columns.iter().position(|c| c.name == cname) else { continue };
+                            let (Some(r1), r2) = (t1.scan().get(ri), t2.scan().get(ri)) else { continue };
+                            let Some(job) = coq_jobs(&jv) else { continue };
+                            let same_shape = t1.row_count() == t2.row_count() && t1.schema.columns.len() == t2.schema.columns.len();
+                            let re = match r2 {
+                                Some(r) if same_shape => format!("(Some {})", coq_bvalue(&r.values[ci])),
+                                _ => "None".to_string(),
+                            };
+                            let line = format!("({}, {}, {}, {})", coq_bvalue(&r1.values[ci]), coq_dtype(&t1.schema.columns[ci].data_type), job, re);
+                            if json_seen.insert(line.clone()) {
+                                json_lines.push(line);
+                            }
+                        }
+                    }
                     let o2 = observe(&mut d2, &bat);
-                    classify(fmt, &f, &orig, Ok(&o2))
+                    classify(fmt, &f, &orig, &expected_schema(&db, fmt != "json", &orig), Ok(&o2))
                 }
                 Err(e) => {
                     if fmt == "binary" {
                         reload_code = if e.starts_with("PANIC") { 2 } else { 1 };
                     }
-                    classify(fmt, &f, &orig, Err(&e))
+                    classify(fmt, &f, &orig, &[], Err(&e))
                 }
             };
             if fmt == "binary" {
@@ -784,5 +880,16 @@ fn main() {
         }
     }
     flush(&mut shard_text, &mut in_shard, &mut shard_no);
+    let json_base: u64 = 3_000_000;
+    for (k, chunk) in json_lines.chunks(1500).enumerate() {
+        let mut s = String::from("From Coq Require Import List ZArith.\nImport ListNotations.\nOpen Scope Z_scope.\nFrom VibeSQL Require Import Value.SqlValue Codec.BinValue Codec.BinType Run.C18Run.\n");
+        s.push_str("Definition cases : list (bvalue * dtype * jobs * option bvalue) := [\n");
+        s.push_str(&chunk.join(";\n"));
+        s.push_str(&format!("].\nEval vm_compute in (c18_json_check {} cases).\n", json_base + (k * 1500) as u64));
+        write_shard(&args, shard_no, &s);
+        shard_no += 1;
+        sum.model_cases += chunk.len() as u64;
+        sum.count_n("json_cells_compared", chunk.len() as u64);
+    }
     sum.write(&args);
 }
